@@ -68,6 +68,28 @@ func ZZ_C17_chainHash() {
 	zz.Assert("hash_string_is_hex_of_hash", a.HashString() == fmt.Sprintf("%x", ha))
 	zz.Assert("equal_method_agrees", a.Equal(b) == allEq)
 
+	// the hash follows the fields of the VALUE it is asked of: a copy of an info that was already hashed, with one
+	// parameter replaced, hashes like a freshly built info with those parameters (nothing is remembered)
+	c := *a
+	switch zz.Choose("then_changed", 5) {
+	case 0:
+		c.Period = b.Period
+	case 1:
+		c.GenesisTime = b.GenesisTime
+	case 2:
+		c.PublicKey = b.PublicKey
+	case 3:
+		c.GenesisSeed = b.GenesisSeed
+	case 4:
+		c.ID = b.ID
+	}
+	fresh := &chain.Info{PublicKey: c.PublicKey, ID: c.ID, Period: c.Period, Scheme: c.Scheme, GenesisTime: c.GenesisTime, GenesisSeed: c.GenesisSeed}
+	zz.Assert("hash_follows_the_fields_after_a_change", bytes.Equal(c.Hash(), fresh.Hash()))
+	a.Period = b.Period // in place, after a.Hash() was computed above
+	fresh2 := &chain.Info{PublicKey: a.PublicKey, ID: a.ID, Period: a.Period, Scheme: a.Scheme, GenesisTime: a.GenesisTime, GenesisSeed: a.GenesisSeed}
+	zz.Assert("hash_follows_the_fields_after_a_change", bytes.Equal(a.Hash(), fresh2.Hash()))
+	ha = a.Hash()
+
 	// protobuf path: ToProto carries the same hash, and decoding gives back an info with that hash
 	pa := a.ToProto(nil)
 	zz.Assert("proto_carries_hash", bytes.Equal(pa.Hash, ha))
